@@ -201,8 +201,10 @@ func (s *MemCachedStore) prepareSeekMemSnapshot(rng SeekRange) (Store, []KeyValu
 		return strings.HasPrefix(key, sPrefix) && (lStart == 0 || cmp.Compare(key[lPrefix:], sStart) >= 0)
 	}
 	if rng.Backwards {
+		// See MemoryStore.seek: keys (and tombstones) extending Prefix+Start
+		// take part in a backwards seek.
 		isKeyOK = func(key string) bool {
-			return strings.HasPrefix(key, sPrefix) && (lStart == 0 || cmp.Compare(key[lPrefix:], sStart) <= 0)
+			return strings.HasPrefix(key, sPrefix) && (lStart == 0 || cmp.Compare(key[lPrefix:], sStart) <= 0 || strings.HasPrefix(key[lPrefix:], sStart))
 		}
 	}
 	s.rlock()
